@@ -248,7 +248,9 @@ def rule_factors_model(chk, tree):
     try:
         for names in cases:
             it = EM.interpreter()
-            integ = EM.instance(it, INT, 'Integrator', acceleration_evals=[EM.mock(particle_arrays=[ARRAYS[n_]() for n_ in names])])
+            # only `fluid` is integrated: the criteria of arrays without a stepper (walls, bodies moved by a callback) limit the step all the same
+            integ = EM.instance(it, INT, 'Integrator', acceleration_evals=[EM.mock(particle_arrays=[ARRAYS[n_]() for n_ in names])], steppers={'fluid': EM.mock(name='FluidStep')},
+                                fixed_h=False, h_minimum=None)
             try:
                 got = EM.call(it, integ, '_get_dt_adapt_factors')
             except AI.Unsupported as e:
@@ -383,6 +385,43 @@ def rule_hmin_model(chk, tree):
             break
         if not same_v:
             bad.append((names, got, want))
+    # set_fixed_h over a history: every set_fixed_h(True) leaves h_minimum = the smallest h of the arrays as they are *then* (the solver is set up again with refined arrays,
+    # a callback shrinks h and asks again); the flag ends as given
+    sf = M.find_func(cls, 'set_fixed_h')
+    hist_bad, hist_und = None, None
+    for seq in ((True, True), (False, True, True), (True, False, True), (True, True, False)):
+        cur = {'h': 0.4}
+        col = EM.mock(minimum=-3.0, maximum=99.0)
+
+        def refresh(i, a, k, n, e, col=col, cur=cur):
+            col.attrs['minimum'] = cur['h']
+            return None
+        col.attrs['update_min_max'] = refresh
+        pa = EM.mock(name='fluid', gpu=None, get_number_of_particles=lambda i, a, k, n, e: 5, get_carray=lambda i, a, k, n, e, col=col: col if a[0] == 'h' else EM.mock(minimum=-5.0, update_min_max=lambda *x: None))
+        it = EM.interpreter()
+        integ = EM.instance(it, INT, 'Integrator', acceleration_evals=[EM.mock(particle_arrays=[pa])], h_minimum=None, fixed_h=False)
+        try:
+            want = None
+            for step, flag in enumerate(seq):
+                cur['h'] = 0.4 / (step + 1)                 # the arrays were refined since the last call
+                EM.call(it, integ, 'set_fixed_h', flag)
+                if flag:
+                    want = cur['h']
+                got = integ.attrs.get('h_minimum')
+                if flag and not (isinstance(got, (int, float)) and float(got) == want):
+                    hist_bad = hist_bad or (seq, step, got, want)
+            if bool(integ.attrs.get('fixed_h')) != bool(seq[-1]):
+                hist_bad = hist_bad or (seq, len(seq) - 1, 'fixed_h=%r' % (integ.attrs.get('fixed_h'),), seq[-1])
+        except AI.Unsupported as e:
+            hist_und = 'calls %s: %s' % (list(seq), e)
+            break
+    if hist_und:
+        chk.undecided('fold-identity', 'set_fixed_h:history', node=sf, file=INT, func='set_fixed_h', detail='not interpretable on the model: ' + hist_und)
+    else:
+        chk.decide(hist_bad is None, 'fold-identity', 'set_fixed_h:history', node=sf, file=INT, func='set_fixed_h',
+                   detail_bad='calls set_fixed_h%s on a model integrator whose array is refined between the calls (smallest h 0.4, 0.2, 0.1333...): after call %s h_minimum is %s, the '
+                              'smallest h then is %s - the stale, larger minimum makes every later step too large' % ((list(hist_bad[0]), hist_bad[1] + 1, hist_bad[2], hist_bad[3]) if hist_bad else ('', '', '', '')),
+                   detail_ok='4 call histories: every set_fixed_h(True) recomputes the minimum from the arrays as they are then')
     if und:
         chk.undecided('fold-identity', 'h-minimum:model-run', node=fn, file=INT, func='compute_h_minimum', detail='not interpretable on the model: ' + und)
     else:
